@@ -341,7 +341,7 @@ class C03(PropDef):
     def oracle(self, case, impl, config):
         if case.startswith("SWEEP"):
             try:
-                return _oracle.c04_oracle(case, impl)
+                return _oracle.probe_violation(impl) or _oracle.c03_modules_oracle(case, impl) or _oracle.c04_oracle(case, impl)
             except Exception as e:
                 return "oracle could not parse the observation: %r" % (e,)
         return None
@@ -536,6 +536,15 @@ class C13(PropDef):
             cases.append(find_case(n, items))
         for mis in (1, 4, 7):
             cases.append(find_case(64, [(8, hdr(16))], mis))
+        # the magic directly behind a proper PREFIX of itself (d6 / d6 50 / d6 50 52), aligned and misaligned, also twice
+        for n in (64, 8192 + 64):
+            for pos in (8, 16, 24, 12, 8184, 8176):
+                if pos + 16 > n:
+                    continue
+                for k in (1, 2, 3):
+                    cases.append(find_case(n, [(pos - k, magic[:k]), (pos, hdr(16))]))
+                    cases.append(find_case(n, [(pos - k, magic[:k]), (pos, hdr(16)), (pos + 32, hdr(16))]))
+                cases.append(find_case(n, [(pos - 4, magic[:1] * 4), (pos, hdr(16))]))
         return cases
 
 
@@ -570,6 +579,9 @@ def string_ctor_cases(rng, tier):
             emit(s.encode("utf-8"))
             emit(s.encode("utf-8") + b"\0")
         emit(b"\0")
+        # texts ending in SEVERAL NULs / with NULs inside: stored as they are
+        for s in (b"hello\0\0", b"a\0b\0\0", b"\0\0", b"\0\0\0", b"x\0\0\0", "ü\0\0".encode("utf-8")):
+            emit(s)
     cases.append("CTOR module " + hx(u32(5) + u32(5) + b"x"))
     cases.append("CTOR module " + hx(u32(6) + u32(5) + b"x"))
     cases.append("CTOR module " + hx(u32(0xFFFFFFFE) + u32(0xFFFFFFFF)))
@@ -591,6 +603,9 @@ class SweepProp(PropDef):
             return None
         if impl.startswith("crash"):
             return "the process crashed (%s)" % impl
+        ev = _oracle.eqpad_violation(impl)
+        if ev:
+            return ev
         try:
             return type(self).oracle_fn(case, impl)
         except Exception as e:  # an unparsable observation is a finding of its own
@@ -621,6 +636,14 @@ class C19(SweepProp):
     def gen(self, tier, rng):
         return (_mbi.gen_elf(rng, tier) + _mbi.gen_elfname(rng, tier) + _mbi.gen_wellformed(rng, 40 if tier == "quick" else 400) +
                 _mbi.gen_scale(rng))
+
+    def oracle(self, case, impl, config):
+        if case.startswith("ELFNAME"):
+            try:
+                return _oracle.c19_name_oracle(case, impl)
+            except Exception as e:
+                return "oracle could not parse the observation: %r" % (e,)
+        return super().oracle(case, impl, config)
 
 
 @register
@@ -834,7 +857,9 @@ class C16(PropDef):
         cases = []
         hbimg = lambda a: u32(0xE85250D6) + u32(a) + u32(24) + u32((-(0xE85250D6 + a + 24)) % (1 << 32))   # noqa: E731
         for kind, hdr in (("tag", u32(7) + u32(0)), ("tag", u32(0xFFFFFFFF) + u32(999)), ("dummy", u32(42) + u32(0)), ("ht", u16(1) + u16(1) + u32(0)), ("ht", u16(5) + u16(0) + u32(77)),
-                          ("bi", u32(16) + u32(0)), ("hb", hbimg(0)), ("hb", hbimg(4))):
+                          ("bi", u32(16) + u32(0)), ("hb", hbimg(0)), ("hb", hbimg(4)),
+                          ("hb", u32(0x1BADB002) + u32(0) + u32(16) + u32((-(0x1BADB002 + 16)) % (1 << 32))),
+                          ("hb", u32(0xFFFFFFFF) + u32(4) + u32(16) + u32(0x12345678))):
             for total in range(0, 25 if tier == "quick" else 65):
                 content = rbytes(rng, total)
                 cases.append("BOXED %s %s %s" % (kind, hx(hdr), hx(content) if total else "-"))
